@@ -26,10 +26,12 @@ class Actors:
         it = interp
         self.desper, self.config = desper, config
 
-        def make_method(mname):
+        def make_method(mname, owner=-1):
             def method(self, *args, **kwargs):
+                it.last_owner = owner       # which class's function ran
                 it.cb(self, mname, args, kwargs)
             method.__name__ = mname
+            method._owner = owner
             return method
 
         ns = {m: make_method(m) for m in METHODS}
@@ -48,7 +50,9 @@ class Actors:
                 self.HRoot,)
             if spec.get('mixin'):
                 bases = bases + (self.Mixin,)
-            cls = type(f'H{i}', bases, {})
+            # a subclass may override callback methods of its bases
+            over = {m: make_method(m, i) for m in spec.get('override', [])}
+            cls = type(f'H{i}', bases, over)
             deco = spec.get('deco')
             inherited = dict(self.emap[base]) if base is not None else {}
             if deco == 'empty':
@@ -117,6 +121,7 @@ class Interp:
         self.depth = 0
         self.cur_plain = []         # tokens of arg-less dispatches in flight
         self.inflight_ok = set()    # tokens allowed to finish while disabled
+        self.last_owner = None
         self.pending_add = Counter()  # queued on_add events not yet delivered
         self.held = set()           # slots a queued event may hold strongly
                                     # (exempt from death checks until the
@@ -206,6 +211,13 @@ class Interp:
                 and not any(slot == s for slot, _ in self.cbstack)):
             self.fail('C10', 'called_after_gone', f'{lab}.{mname} called '
                       f'after the program dropped its last reference')
+        want_owner = getattr(getattr(type(obj), mname), '_owner', None)
+        if self.last_owner != want_owner:
+            self.fail('C03', 'wrong_method', f'{lab}.{mname}: the function '
+                      f'of class H{self.last_owner} was called, the '
+                      f'instance\'s class resolves {mname} to H{want_owner}')
+        if want_owner not in (-1, None):
+            self.probes['overridden_callback_called'] += 1
         token = None
         if args:
             token = args[0]
@@ -880,8 +892,10 @@ def gen_config(prop, rng):
             if prop == 'C10' and rng.random() < .35:
                 names = names + ['on_add']
             deco = {'names': names, 'maps': maps}
-        hclasses.append({'base': base, 'mixin': rng.random() < .2,
-                         'deco': deco})
+        spec = {'base': base, 'mixin': rng.random() < .2, 'deco': deco}
+        if base is not None and rng.random() < .4:
+            spec['override'] = rng.sample(METHODS[:5], rng.randint(1, 3))
+        hclasses.append(spec)
     if not any(isinstance(h['deco'], dict) for h in hclasses):
         hclasses[0]['deco'] = {'names': ['a', 'b'], 'maps': {}}
     n = rng.randint(2, 6)
@@ -1140,7 +1154,7 @@ PROBES = {
     'C03': ['double_registration', 'remove_unregistered',
             'reentrant_dispatch', 'remove_mid_dispatch',
             'kwargs_only_dispatch', 'multi_class_dispatch',
-            'dispatch_nobody_listens'],
+            'dispatch_nobody_listens', 'overridden_callback_called'],
     'C04': ['fault_pos.first', 'fault_pos.middle', 'fault_pos.last',
             'release_aborted_by_raise', 'release_cut_by_nested_disable',
             'nested_enable_inside_release', 'raise_then_second_enable',
